@@ -65,6 +65,8 @@ CATALOG['try_boxed_from_iter'] = lambda f, s, n: scenarios.op_try_from_iter(f, s
 CATALOG['heap.try_from_vec'] = lambda f, s, n: scenarios.from_heap(f, s, n, which='try_from_vec', name='heap.try_from_vec')
 CATALOG['heap.try_from_boxed_slice'] = lambda f, s, n: scenarios.from_heap(f, s, n, which='try_from_boxed_slice', name='heap.try_from_boxed_slice')
 CATALOG['iter.clone_from'] = lambda f, s, n: scenarios.iter_clone_from(f, s, n, name='iter.clone_from')
+CATALOG['box.map'] = lambda f, s, n: scenarios.box_ops(f, s, n, which='map', name='box.map')
+CATALOG['box.fold'] = lambda f, s, n: scenarios.box_ops(f, s, n, which='fold', name='box.fold')
 CATALOG['clone_from'] = lambda f, s, n: scenarios.clone_from(f, s, n, name='clone_from')
 CATALOG['mutprov'] = lambda f, s, n: scenarios.mut_views(f, s, n, name='mutprov')
 CATALOG['const_transmute'] = lambda f, s, n: scenarios.transmute_guard(f, s, n, name='const_transmute')
